@@ -94,7 +94,8 @@ def w_arr(ctx, rng, idx):
     with probe.oracle():
         g = gen.rand_tt(rng, n, [1] * p, ranks)
     as_list = rng.random() < 0.3
-    ctx.describe({'op': 'arr', 'd': d, 'm': m, 'modes': n, 'ranks': ranks, 'list_guess': as_list, 'outputs': y.shape[0]})
+    rc = [1e-14, 1e-14, 1e-13, 0, 0.0][int(rng.integers(0, 5))]  # negligible cut-offs, the smallest admissible one (exactly 0) included
+    ctx.describe({'op': 'arr', 'rcond': rc, 'd': d, 'm': m, 'modes': n, 'ranks': ranks, 'list_guess': as_list, 'outputs': y.shape[0]})
     res = []
     r0 = None
     noise = 0.0
@@ -108,11 +109,13 @@ def w_arr(ctx, rng, idx):
             guess = g
             if r0 is None:
                 r0 = arr_residual(x, y, bl, [g] * y.shape[0])
-        ok, sol = call('regression.arr', reg.arr, x, y, bl, guess, prop=P, refusals=(np.linalg.LinAlgError,), repeats=rep, rcond=1e-14, progress=False)
+        ok, sol = call('regression.arr', reg.arr, x, y, bl, guess, prop=P, refusals=(np.linalg.LinAlgError,), repeats=rep, rcond=rc, progress=False)
         if not ok:
             return
         res.append(arr_residual(x, y, bl, sol))
         noise = max(noise, monitors_regression.LAST_NOISE)
+        if monitors_regression.LAST_UNDECIDED:
+            return
     ny = float(np.linalg.norm(y))
     # rcond=1e-14 keeps nearly singular directions of the micro problems: residuals are only determined up to their rounding noise
     tol = 1e-6 * ny + 1000 * noise
